@@ -67,6 +67,8 @@ PROPS = {
     "C11": dict(scans=lambda p, s, t: [scan.scan_immutables(p, s, t)]),
     "C13": dict(level="other", extra=lambda prog, S, tier, seed: [__import__("extras").run_child("trace_float_grid", REPO, 20000 if tier == "quick" else 100000),
                                                     __import__("extras").run_child("trace_replay_random", REPO, seed, 300 if tier == "quick" else 3000)]),
+    "C19": dict(level="other", scans=_scan_suspend,
+                extra=lambda prog, S, tier, seed: [__import__("extras").run_children("rest_bridge", REPO, seed, 48 if tier == "quick" else 960, procs=12)]),
     "C20": dict(level="other", extra=lambda prog, S, tier, seed: [__import__("extras").run_child("snap_float_grid", REPO, 20000 if tier == "quick" else 200000),
                                                     __import__("extras").run_child("tools_files", REPO, seed, 30 if tier == "quick" else 400),
                                                     __import__("extras").run_child("sensitivity_seed", REPO)]),
